@@ -46,6 +46,7 @@ if CYC:
         ("MinPathCoverCycles", dict(), "subset_constraints"),
         ("kMinPathErrorCycles+scale0", dict(k=2, weight_type=int, error_scaling=dict([(("a", "a"), 0)])), "subset_constraints"),
         ("kLeastAbsErrorsCycles+scale0", dict(k=2, weight_type=int, error_scaling=dict([(("a", "a"), 0)])), "subset_constraints"),
+        ("kMinPathErrorCycles+percentile", dict(k=2, weight_type=int, elements_to_ignore_percentile=40), "subset_constraints"),
     ]
     CONSTRAINT = [[("a", "b"), ("b", "a")]]
     IGNORE = [("a", "a")]
@@ -67,7 +68,7 @@ else:
     IGNORE = [("b", "c")]
 
 def _fresh_shared():
-    return {{"G": _graph(), "opts": {{"optimize_with_safe_zero_edges": True, "use_subgraph_scanning_lowerbound": True}}, "sopts": {{"threads": 2}}, "constraints": copy.deepcopy(CONSTRAINT), "ignore": list(IGNORE)}}
+    return {{"G": _graph(), "opts": {{"optimize_with_safe_zero_edges": True, "use_subgraph_scanning_lowerbound": True}}, "sopts": {{"threads": 2}}, "constraints": copy.deepcopy(CONSTRAINT), "ignore": list(IGNORE), "ignore_empty": []}}
 
 fp.MinFlowDecomp.subgraph_lowerbound_size = 2
 fp.MinFlowDecomp.subgraph_lowerbound_shift = 1
@@ -75,7 +76,7 @@ fp.MinFlowDecomp.subgraph_lowerbound_shift = 1
 def _snap(sh):
     G = sh["G"]
     return (sorted(G.nodes(data=True), key=str).__repr__(), sorted(G.edges(data=True), key=str).__repr__(), repr(sorted(G.graph.items())),
-            repr(sh["opts"]), repr(sh["sopts"]), repr(sh["constraints"]), repr(sh["ignore"]))
+            repr(sh["opts"]), repr(sh["sopts"]), repr(sh["constraints"]), repr(sh["ignore"]), repr(sh["ignore_empty"]))
 
 def _run(ci, share_opts, share_lists, sh):
     name, kw, ckey = CLASSES[ci]
@@ -88,7 +89,7 @@ def _run(ci, share_opts, share_lists, sh):
         kw["solver_options"] = sh["sopts"]
     if share_lists:
         kw[ckey] = sh["constraints"]
-        kw["elements_to_ignore"] = sh["ignore"]
+        kw["elements_to_ignore"] = sh["ignore"] if not name.endswith("+percentile") else sh["ignore_empty"]   # the percentile rule needs an empty list
     if "PathCover" in name:
         m = cls(sh["G"], **kw)
     else:
@@ -275,7 +276,22 @@ def _defaults(task, res):
             lambda: fp.kMinPathError(G, "flow", k=2, error_scaling={("a", "c"): 0}), lambda: fp.kLeastAbsErrors(G, "flow", k=2, error_scaling={("a", "c"): 0}),
             lambda: fp.kMinPathErrorCycles(H, "flow", k=2, error_scaling={("a", "a"): 0}), lambda: fp.kLeastAbsErrorsCycles(H, "flow", k=2, error_scaling={("a", "a"): 0}),
             lambda: fp.MinErrorFlow(G, "flow", error_scaling={("a", "c"): 0}), lambda: fp.kLeastAbsErrors(G, "flow", k=2, solution_weights_superset=[1, 2, 3]),
-            lambda: fp.kMinPathError(N, "flow", k=1, flow_attr_origin="node", error_scaling={"b": 0}), lambda: fp.kFlowDecomp(N, "flow", k=1, flow_attr_origin="node", elements_to_ignore=["b"])]
+            lambda: fp.kMinPathError(N, "flow", k=1, flow_attr_origin="node", error_scaling={"b": 0}), lambda: fp.kFlowDecomp(N, "flow", k=1, flow_attr_origin="node", elements_to_ignore=["b"]),
+            # rarely used options, all other optional arguments at their defaults
+            lambda: fp.kMinPathErrorCycles(H, "flow", k=2, elements_to_ignore_percentile=40), lambda: fp.kMinPathErrorCycles(H, "flow", k=2, trusted_edges_for_safety_percentile=50),
+            lambda: fp.kMinPathErrorCycles(H, "flow", k=None, elements_to_ignore_percentile=60),
+            lambda: fp.kMinPathError(G, "flow", k=2, path_length_ranges=[[0, 3], [4, 50]], path_length_factors=[1, 2]),
+            lambda: fp.kMinPathError(G, "flow", k=2, additional_starts=["b"], additional_ends=["c"]), lambda: fp.kLeastAbsErrorsCycles(H, "flow", k=2, additional_starts=["a"], additional_ends=["b"]),
+            lambda: fp.kFlowDecomp(G, "flow", k=3, optimization_options={"optimize_with_safety_as_subpath_constraints": True, "optimize_with_greedy": False}),
+            lambda: fp.kMinPathError(G, "flow", k=2, optimization_options={"optimize_with_safety_as_subpath_constraints": True}),
+            lambda: fp.MinFlowDecomp(G, "flow", optimization_options={"use_min_gen_set_lowerbound": True, "use_min_gen_set_lowerbound_partition_constraints": True, "optimize_with_greedy": False}),
+            lambda: fp.MinFlowDecomp(G, "flow", optimization_options={"optimize_with_guessed_weights": True, "optimize_with_greedy": False}),
+            lambda: fp.kFlowDecompCycles(H, "flow", k=2, optimization_options={"optimize_with_safe_sequences_fix_via_bounds": True}),
+            lambda: fp.kLeastAbsErrorsCycles(H, "flow", k=2, optimization_options={"optimize_with_safety_as_subset_constraints": True}),
+            lambda: fp.kPathCoverCycles(H, k=2, optimization_options={"optimize_with_max_safe_antichain_as_subset_constraints": True}),
+            lambda: fp.MinFlowDecompCycles(H, "flow", optimization_options={"use_min_gen_set_lowerbound": True, "optimize_with_guessed_weights": True}),
+            lambda: fp.MinErrorFlow(G, "flow", few_flow_values_epsilon=0.5), lambda: fp.MinErrorFlow(H, "flow", additional_starts=["a"], additional_ends=["b"]),
+            lambda: fp.MinErrorFlow(G, "flow", sparsity_lambda=0.5), lambda: fp.MinGenSet([1, 2, 3, 6], total=6, partition_constraints=[[2, 4]]), lambda: fp.MinGenSet([2, 5], total=3, max_multiplicity=2)]
     for mk in runs:
         try:
             m = mk()
@@ -313,7 +329,7 @@ def replay(data):
 RULE = ("one evaluation = one history of model constructions/solves sharing the caller's graph, option dictionaries, constraint and ignore lists (class index and sharing bits symbolic); "
         "non-trivial = histories of length >= 2; plus one case per mutable default argument of an exported __init__")
 ASSUMPTIONS = [
-    "models are built and solved concretely under NoTracing on one DAG instance and one cyclic instance; CrossHair covers all histories of length 2 (3 in thorough) over 11 (8) class variants (incl. given weights, zero error scale, subgraph scanning) x 3 sharing patterns (nothing shared / option dicts / option dicts + constraint and ignore lists)",
+    "models are built and solved concretely under NoTracing on one DAG instance and one cyclic instance; CrossHair covers all histories of length 2 (3 in thorough) over 11 (9) class variants (incl. given weights, zero error scale, subgraph scanning, ignore percentile) x 3 sharing patterns (nothing shared / option dicts / option dicts + constraint and ignore lists)",
     "checked after every step: deep equality (repr) of the caller's graph incl. attributes, both option dicts, constraint and ignore lists with their pre-image; (solved, objective, #routes) equals the same call on fresh copies; get_solution/get_objective_value repeated twice agree",
 ]
 
@@ -324,5 +340,5 @@ def main(tier, seed):
     for t in tasks:
         t["timeout"] = 140 if tier == "quick" else 900
     acc = core.run_tasks(run_task, tasks, deadline_s=175 if tier == "quick" else 2400)
-    bounds = {"history_len": 2 if tier == "quick" else 3, "class_variants": {"dag": 11, "cyclic": 8}, "sharing_patterns": 3}
+    bounds = {"history_len": 2 if tier == "quick" else 3, "class_variants": {"dag": 11, "cyclic": 9}, "sharing_patterns": 3}
     return core.finish(PID, tier, seed, LEVEL, acc, t0, RULE, ASSUMPTIONS, bounds, replay)
